@@ -363,10 +363,7 @@ func (fr *faultRun) exec() {
 	toks := f.Tokens(nil)
 	or := rng.New(rng.Sub(fr.seed, "options"))
 	lr := rng.New(rng.Sub(fr.seed, "layout"))
-	style := 1
-	if or.P(0.4) {
-		style = 2
-	}
+	style := []int{1, 1, 1, 2, 2, 3, 4}[or.Intn(7)]
 	input0 := filegen.Join(toks, style, lr.U64)
 	o := fgOptions(f)
 	o.Optimize = or.Bool()
